@@ -1382,6 +1382,19 @@ def gen_C03(tier, rng):
         t1 = b.result(("mul",), [big, small], out, False, True, 0)
         t2 = b.result(("add",), [small, t1], out, False, True, 0)
         cases.append(graph_case("bcast_large", b, t2, b.seed_for(t2, "int"), "large"))
+    # a rank-1 operand of matmul against a BATCHED matrix operand, every flag pair: the vector's gradient has the
+    # vector's dimensions and sums the contributions of every batch entry with its own delta
+    for lead in ([2], [3], [2, 2]):
+        for n_, m_ in ((2, 2), (3, 2), (2, 3)):
+            for ta, tb in itertools.product((False, True), repeat=2):
+                da = lead + (mat_dims(m_, n_, ta) if tb else mat_dims(m_, 1, ta))
+                cases.append(single_op_case(rng, ("matmul", ta, tb),
+                                            [(da, rvals(rng, prod(da), True)), ([n_], rvals(rng, n_, True))],
+                                            "matmul_vector_against_batch:right"))
+                db = lead + (mat_dims(n_, m_, tb) if not ta else mat_dims(1, m_, tb))
+                cases.append(single_op_case(rng, ("matmul", ta, tb),
+                                            [([n_], rvals(rng, n_, True)), (db, rvals(rng, prod(db), True))],
+                                            "matmul_vector_against_batch:left"))
     # broadcasting inside matmul (bias, leading dims) and conv bias
     for _ in range(120 if tier == "quick" else 1500):
         b = randprog.Builder(rng, exact=True, ops=[("matmul", 3), ("add", 2), ("mul", 2), ("sum", 1), ("conv", 1)])
@@ -1928,6 +1941,29 @@ def gen_C17(tier, rng):
             c["role"] = role
             c["coeffs"] = (alpha, beta)
             cases.append(c)
+    # sequences of passes on ONE root mixing omitted and explicit seeds: an omitted seed is all ones EVERY time,
+    # whatever the root already holds
+    for i in range(60 if tier == "quick" else 600):
+        d = rng.choice([[2], [3], [2, 2]])
+        nel = prod(d)
+        av, bv = int_vals(nel, rng), int_vals(nel, rng)
+        kind = rng.choice(["mul", "add"])
+        ins = [("leaf", True, d, av), ("leaf", True, d, bv), ("op", (kind,), [0, 1])]
+        tot = [0.0] * nel
+        expect = []
+        for _ in range(rng.randint(2, 4)):
+            sd = None if rng.random() < 0.6 else int_vals(nel, rng, -2, 3)
+            ins.append(("backward", 2, None if sd is None else (d, sd)))
+            tot = [t_ + (1.0 if sd is None else s_) for t_, s_ in zip(tot, sd or [0.0] * nel)] if sd is not None else \
+                  [t_ + 1.0 for t_ in tot]
+            ins.append(("grad", 0))
+            expect.append((len(ins) - 1, d, [t_ * b_ for t_, b_ in zip(tot, bv)] if kind == "mul" else list(tot)))
+            ins.append(("grad", 2))
+            expect.append((len(ins) - 1, d, list(tot)))
+        c = case("seed_seq", ins, "omitted_and_explicit_seeds_on_one_root")
+        c["expect_at"] = expect
+        c["adjudicate"] = [e[0] for e in expect]
+        cases.append(c)
     # a seed of zeros is a seed like any other: the gradients are zeros (present), and the next pass adds to them
     for i in range(40 if tier == "quick" else 400):
         d = rng.choice([[2], [3], [2, 2]])
@@ -2771,6 +2807,32 @@ def gen_C18(tier, rng):
                     c["takes"] = takes
                     c["adjudicate"] = takes
                     cases.append(c)
+    # a model whose layers are ALL frozen (inference with pretrained weights): a forward pass on a tracked input records
+    # a graph through the input alone; after the next forward pass (untracked input: nothing recorded) and the drop of
+    # the first result, the first input is sole owner of its buffer again.  The Coq model's program language cannot
+    # freeze layers: corgi only, judged by Vec::from succeeding.
+    for k5 in range(30 if tier == "quick" else 300):
+        nin, nout = rng.randint(1, 3), rng.randint(1, 3)
+        act = rng.choice(["none", "relu", "sigmoid"])
+        layers = [("dense", nin, nout, act, [rng.uniform(-1, 1) for _ in range(nin * nout)],
+                   [rng.uniform(-0.5, 0.5) for _ in range(nout)])]
+        if k5 % 2:
+            n2 = rng.randint(1, 3)
+            layers.append(("dense", nout, n2, "none", [rng.uniform(-1, 1) for _ in range(nout * n2)],
+                           [rng.uniform(-0.5, 0.5) for _ in range(n2)]))
+        bsz = rng.choice([[], [2], [3]])
+        ins = [("model", layers, "mse", 0.1), ("mfreeze", [1] * len(layers)),
+               ("leaf", True, bsz + [nin], [rng.uniform(-1, 1) for _ in range(prod(bsz + [nin]))]), ("forward", 2),
+               ("leaf", k5 % 3 == 0, bsz + [nin], [rng.uniform(-1, 1) for _ in range(prod(bsz + [nin]))]), ("forward", 4),
+               ("drop", 3), ("takevec", 2)]
+        if k5 % 3:
+            ins += [("drop", 5), ("takevec", 4)]
+        c = case("frozen_model", ins, "model_all_layers_frozen")
+        c["takes"] = [i for i, x in enumerate(ins) if x[0] == "takevec"]
+        if k5 % 3 == 0:
+            c["takes"] = c["takes"][:1]
+        c["skip_model"] = True
+        cases.append(c)
     # the training loop: batches of finished iterations and validation batches of forward-only passes must be
     # sole owners again once the model has moved on
     for _ in range(80 if tier == "quick" else 1000):
@@ -3861,6 +3923,20 @@ def gen_C19(tier, rng):
         c = case("scales", ins, "rows_of_different_scales")
         c["rtol"] = 2e-4
         c["scale_tol"] = False
+        cases.append(c)
+    # convolution with filters whose area or width is an odd larger number (41, 47, 55, 61, 82 ...), depth 2, tracked
+    # image: forward values, filter gradient and IMAGE gradient (the scatter back over overlapping windows) must be
+    # the same in both widths; integer data, exact
+    for (fr, fc, ir, ic, depth) in [(5, 11, 6, 12, 2), (1, 41, 2, 42, 2), (1, 47, 2, 48, 1), (2, 41, 3, 42, 1),
+                                    (5, 11, 6, 11, 2), (1, 61, 2, 62, 2), (2, 47, 3, 47, 1), (7, 7, 8, 8, 2)]:
+        di = [depth, ir, ic]
+        df = [1, depth, fr, fc]
+        ins = [("leaf", True, di, [float((3 * i) % 7 - 3) for i in range(prod(di))]),
+               ("leaf", True, df, [float((2 * i) % 5 - 2) for i in range(prod(df))]),
+               ("op", ("conv", 1, 1), [0, 1]), ("backward", 2, None), ("grad", 0), ("grad", 1)]
+        c = case("conv_area", ins, "conv_filter_area_%d" % (fr * fc))
+        c["rtol"] = 2e-4
+        c["scale_tol"] = True
         cases.append(c)
     # matrix products whose rows differ in magnitude by four orders (100 against 0.01), non-integer data: every output
     # element is judged against sum_k |a_ik b_kj| of ITS OWN terms (32 units of single-precision round-off), not
